@@ -20,11 +20,35 @@ Space (see _c28_space.py):
   programs    length 1 and length 2 (second step enumerated on the document produced by the
               first), with and without a flush() between the steps
   origins     object loaded from the database, created in this session (before / after flush),
-              assigned in this session (before / after flush)
+              assigned in this session (before / after flush)          [all routes, length 1; read-only too]
+  contexts    (class Context; origin = '<provenance>-<phase>[+<modifier>]') the state of the object and the
+              provenance of the value before the first step:
+              object pre-state  a pending change on ANOTHER attribute (scalar assigned / Json-or-array assigned /
+                                Json-or-array changed in place) of a loaded, inserted, updated or committed
+                                object; another attribute saved in this session; after commit() inside the
+                                same db_session (loaded / assigned / created objects)
+              provenance        assigned from ANOTHER object's tracked value (root and nested part), from the
+                                same object's sibling attribute, from the object's own nested part, passed to
+                                the constructor from another object's value, and the donor side (the object's
+                                value was assigned to another object) - each pending, flushed and committed,
+                                some combined with a pre-state modifier
+              length-1 mutation programs in every context, read-only programs in RO_CONTEXTS; routes
+              {attribute, full alias} in the quick tier, all routes in the thorough tier; the thorough tier
+              also runs length-2 programs (attribute route, flush between the steps) in LEN2_CONTEXTS
   read-only   indexing, iteration, len, in, get, keys/values/items, copy, get_untracked,
               comparison, json.dumps, repr, pickle, copy/deepcopy, concatenation, mutation of a
-              copy - must leave status unchanged and emit no UPDATE (driver log through
-              bind(factory=...)).
+              copy - must leave status AND write bits unchanged and emit no INSERT/UPDATE/DELETE for a
+              row that had nothing pending (driver log with parameters through bind(factory=...)).
+
+Oracle per program: (1) after every step the in-memory value equals the plain result; (2) a step that
+changed the value leaves the object 'modified'/'created' and, when 'modified', with the write bit of
+THAT attribute set; (3) a read leaves (status, write bits) as they were; (4) the second object of the
+context (only read after the setup) keeps (status, write bits), keeps its values in memory, and its row
+is not written unless it had a pending change from the setup; (5) after commit a new db_session reads
+the plain result for the target and the expected values for every other attribute of both rows.
+Signatures name the context only when the same program passes from origin 'loaded' (and, for a
+modifier, passes without the modifier): '<kind>:ctx[<provenance-phase> | +<modifier>]:<shape>:<what>';
+four or more operation shapes failing alike in one context collapse to shape '*'.
 """
 import os, sys, json, copy, pickle, hashlib, sqlite3, itertools, shutil, atexit
 from vf import core
@@ -128,7 +152,7 @@ class Context(object):
         self.sib = sib = SIBLING[vk]
         if js:
             row = dict(note='n', other={'o': [1]}, data={'old': [0]}, tail=[{'t': 1}])
-            self.other2, self.inplace_attr, self.inplace_val = {'o': [2]}, 'tail', [{'t': 2}]
+            self.other2, self.inplace_attr, self.inplace_val = {'o': [2]}, 'other', {'o': [1, 2]}
         else:
             row = dict(note='n', other=[7], ia=[], sa=[], fa=[], ia2=[], sa2=[], fa2=[])
             row[t] = doc[:1]
@@ -181,7 +205,7 @@ class Context(object):
         elif mod == 'dirty-json': obj.other = copy.deepcopy(self.other2)
         elif mod == 'dirty-inplace':
             v = getattr(obj, self.inplace_attr)
-            if self.json: v[0]['t'] = 2
+            if self.json: v['o'].append(2)
             else: v.append(8)
         elif mod == 'clean-other':
             obj.note = 'x'; orm.flush()
@@ -498,8 +522,11 @@ def _one(sub, prog):
         for m in prog['meta']: sub.count('refused_program_with:%s:%s' % ('json' if prog['vk'] == 'json' else 'array', m['op']))
     if res['both_raise']: sub.count('steps_raising_in_python_too', res['both_raise'])
     if res['changed']: sub.count('programs_changing_the_value')
+    prov, _, mod = parse_origin(prog['origin'])
+    if prov in ('db', 'literal', 'ctor'): prov = ''       # the historical origins: told apart by the status alone
     for st, cur in res['states']:
-        sub.states.add(hashlib.md5(('%s|%s|%s' % (prog['vk'], st, cur)).encode()).hexdigest()[:12])
+        # a state = value kind, provenance of the value, pending change elsewhere, object status, value
+        sub.states.add(hashlib.md5(('%s|%s|%s|%s|%s' % (prog['vk'], prov, mod, st, cur)).encode()).hexdigest()[:12])
     if len(sub.samples) < 1 and len(prog['steps']) == 2 and res['changed'] and prog.get('flush'):
         sub.sample(dict(vk=prog['vk'], doc=prog['doc'], origin=prog['origin'], steps=prog['steps'], flush=True))
     if res['problems']:
@@ -604,7 +631,7 @@ def run(ctx):
                  '{attr, full alias}^2 from origin loaded without flush and from origins inserted/updated with flush'))
     ctx.cov['evaluations'] = c.get('programs', 0)
     ctx.cov['distinct_nontrivial'] = c.get('programs_changing_the_value', 0) + sum(
-        v for k, v in c.items() if k.endswith(':readonly'))
+        v for k, v in c.items() if k.startswith('programs:') and k.endswith(':readonly'))
     ctx.cov['rule'] = ('programs are enumerated without repetition (value kind, document, origin, flush, step texts); '
                        'non-trivial = mutation programs whose plain-Python result differs from the initial value, '
                        'plus read-only programs')
@@ -647,6 +674,19 @@ def collapse_contexts(ctx):
             if merged is None: merged = e
             else: merged['n'] += e['n']
         ctx.found['%s:*:%s' % (head, tail)] = merged
+    # the same provenance failing the same way in two or more phases -> '<provenance>-*'
+    groups = {}
+    for sig in list(ctx.found):
+        m = re.match(r'^(\w+):ctx\[(\w+)-(\w+)\]:\*:([\w-]+)$', sig)
+        if m: groups.setdefault((m.group(1), m.group(2), m.group(4)), []).append(sig)
+    for (vkind, prov, tail), members in groups.items():
+        if len(members) < 2: continue
+        merged = None
+        for sig in sorted(members):
+            e = ctx.found.pop(sig)
+            if merged is None: merged = e
+            else: merged['n'] += e['n']
+        ctx.found['%s:ctx[%s-*]:*:%s' % (vkind, prov, tail)] = merged
 
 def replay(ctx, case):
     prog = dict(case)
